@@ -26,14 +26,35 @@ def _meta(typ):
     return m
 
 
+def behave(spec, st, time, inputs):
+    """the deterministic behaviour of a test simulator: new state and the value returned by step()"""
+    s = 0
+    for attrs in inputs.values():
+        for vals in attrs.values():
+            for v in vals.values():
+                s += v if isinstance(v, int) else 0
+    st = {"val": (s + time + 1) % 7, "time": time, "count": st["count"] + 1}
+    return st, (None if spec["type"] == "event-based" else time + spec["step"])
+
+
+def produce(spec, st, attrs):
+    """the values get_data() yields for the requested attributes, and the output time"""
+    d = {}
+    for a in attrs:
+        if a == "x":
+            d[a] = st["val"]
+        elif a == "ev" and st["val"] % 2 == 0 and st["count"] <= spec.get("max_events", 99):
+            d[a] = st["val"]
+    return d, (st["time"] if spec["type"] == "time-based" else st["time"] + spec.get("out_shift", 0))
+
+
 def make_sim_class(trace, spec, yields):
     import mosaik_api_v3
 
     class Sim(mosaik_api_v3.Simulator):
         def __init__(self):
             super().__init__(_meta(spec["type"]))
-            self.val = 0
-            self.count = 0
+            self.st = {"val": 0, "time": -1, "count": 0}
 
         def init(self, sid, time_resolution=1.0, **kw):
             self.sid = sid
@@ -46,33 +67,94 @@ def make_sim_class(trace, spec, yields):
             for _ in range(yields):
                 yield asyncio.sleep(0)
             trace.append((time, json.dumps(inputs, sort_keys=True)))
-            s = 0
-            for attrs in inputs.values():
-                for vals in attrs.values():
-                    for v in vals.values():
-                        s += v if isinstance(v, int) else 0
-            self.val = (s + time + 1) % 7
-            self.time = time
-            self.count += 1
-            if spec["type"] == "event-based":
-                return None
-            return time + spec["step"]
+            self.st, nxt = behave(spec, self.st, time, inputs)
+            return nxt
 
         def get_data(self, outputs):
             out = {}
+            t = None
             for eid, attrs in outputs.items():
-                d = {}
-                for a in attrs:
-                    if a == "x":
-                        d[a] = self.val
-                    elif a == "ev" and self.val % 2 == 0 and self.count <= spec.get("max_events", 99):
-                        d[a] = self.val
+                d, t = produce(spec, self.st, attrs)
                 if d:
                     out[eid] = d
             if spec["type"] != "time-based":
-                out["time"] = self.time + spec.get("out_shift", 0)
+                out["time"] = self.st["time"] + spec.get("out_shift", 0)
             return out
     return Sim
+
+
+def reference_traces(name):
+    """C02 + C03 as an executable specification for UNGROUPED scenarios (integer times): simulators are processed
+    time by time, at one time in the order of the non-shifted connections (a consumer after its producers).
+      steps (C02): time 0 for time-based / hybrid; every returned next-step time < until; every delayed output time
+        < until of a value delivered to a trigger input -- each exactly once;
+      inputs (C03): persistent output -> the most recent value whose delayed output time is <= t (the declared initial
+        data until there is one, else None); non-persistent output -> each value exactly once, at the first step at
+        or after its delayed output time.
+    Returns None for scenarios with groups (tiered time is not modelled by this reference)."""
+    sims, conns, groups = SCENARIOS[name]
+    if groups:
+        return None
+    roles = list(sims)
+    # order within one time: producers before consumers along connections without time shift
+    order, left = [], set(roles)
+    while left:
+        free = sorted(r for r in left if not any(d == r and s in left and s != r and not kw.get("time_shifted") for s, d, _, _, kw in conns))
+        if not free:
+            return None
+        order += free
+        left -= set(free)
+
+    def is_trigger(dest, attr):
+        t = sims[dest]["type"]
+        return t == "event-based" or (t == "hybrid" and attr in _meta("hybrid")["models"]["M"]["trigger"])
+
+    def is_persistent(src, attr):
+        t = sims[src]["type"]
+        return t == "time-based" or (t == "hybrid" and attr not in _meta("hybrid")["models"]["M"]["non-persistent"])
+
+    state = {r: {"val": 0, "time": -1, "count": 0} for r in roles}
+    demand = {r: ({0} if sims[r]["type"] != "event-based" else set()) for r in roles}
+    produced = {r: [] for r in roles}            # [(output time, {attr: value})]
+    pending_events = []                          # [due time, dest, dest attr, src full id, value]
+    traces = {r: [] for r in roles}
+    for t in range(UNTIL):
+        for r in order:
+            if t not in demand[r]:
+                continue
+            inputs = {}
+            for s, d, sa, da, kw in conns:
+                if d != r:
+                    continue
+                shift = 1 if kw.get("time_shifted") else 0
+                if is_persistent(s, sa):
+                    due = [(ot, vals[sa]) for ot, vals in produced[s] if sa in vals and ot + shift <= t]
+                    if due:
+                        val = max(due, key=lambda x: x[0])[1]
+                    else:
+                        val = (kw.get("initial_data") or {}).get(sa)
+                    inputs.setdefault("e0", {}).setdefault(da, {})[f"{s}-0.e0"] = val
+            for ev in sorted(pending_events, key=lambda e: e[0]):
+                if ev[1] == r and ev[0] <= t:
+                    inputs.setdefault("e0", {}).setdefault(ev[2], {})[ev[3]] = ev[4]
+            pending_events[:] = [ev for ev in pending_events if not (ev[1] == r and ev[0] <= t)]
+            traces[r].append((t, json.dumps(inputs, sort_keys=True)))
+            state[r], nxt = behave(sims[r], state[r], t, inputs)
+            if nxt is not None and nxt < UNTIL:
+                demand[r].add(nxt)
+            wanted = sorted({sa for s, d, sa, da, kw in conns if s == r})
+            vals, ot = produce(sims[r], state[r], wanted)
+            if wanted:
+                produced[r].append((ot, vals))
+            for s, d, sa, da, kw in conns:
+                if s != r or sa not in vals:
+                    continue
+                due = ot + (1 if kw.get("time_shifted") else 0)
+                if not is_persistent(r, sa):
+                    pending_events.append([due, d, da, f"{r}-0.e0", vals[sa]])
+                if is_trigger(d, da) and due < UNTIL:
+                    demand[d].add(due)
+    return traces
 
 
 # name: (simulators {role: spec}, connections [(src, dest, src_attr, dest_attr, kwargs)], groups [[roles]])
@@ -97,6 +179,10 @@ SCENARIOS = {
                           [("A", "B", "x", "in2", {"time_shifted": True, "initial_data": {"x": 5}}), ("A", "B", "x", "in1", {})], []),
     "explicit_output_time": ({"A": {"type": "hybrid", "step": 2, "out_shift": 1}, "B": {"type": "time-based", "step": 1}},
                              [("A", "B", "x", "in1", {})], []),
+    "event_to_time_based": ({"A": {"type": "hybrid", "step": 1}, "B": {"type": "time-based", "step": 2}},
+                            [("A", "B", "ev", "in1", {})], []),
+    "shifted_event": ({"A": {"type": "hybrid", "step": 1}, "E": {"type": "event-based"}, "B": {"type": "time-based", "step": 1}},
+                      [("A", "E", "ev", "in1", {"time_shifted": True}), ("E", "B", "x", "in1", {})], []),
     "slow_producer_shifted": ({"A": {"type": "time-based", "step": 5}, "B": {"type": "time-based", "step": 1}},
                               [("A", "B", "x", "in1", {"time_shifted": True, "initial_data": {"x": 0}})], []),
 }
@@ -183,6 +269,7 @@ def bounded_config_independence(tier, seed):
     except Exception:  # noqa: BLE001
         pass
     failures, known, cases, nontrivial = [], [], 0, 0
+    with_reference = 0
     samples = []
     for name in SCENARIOS:
         sims = list(SCENARIOS[name][0])
@@ -192,6 +279,18 @@ def bounded_config_independence(tier, seed):
             continue
         if len(samples) < 3:
             samples.append({"scenario": name, "baseline_trace": {r: t[:4] for r, t in base.items()}})
+        ref = reference_traces(name)
+        if ref is not None:
+            cases += 1
+            nontrivial += 1
+            with_reference += 1
+            if ref != base:
+                r = next(r for r in sims if ref[r] != base[r])
+                i = next((i for i, (a, b) in enumerate(zip(base[r], ref[r])) if a != b), min(len(base[r]), len(ref[r])))
+                failures.append({"desc": f"scenario {name}, baseline configuration {BASE}: simulator {r} observes "
+                                         f"{base[r][i] if i < len(base[r]) else 'no further step'} where the sequential reference semantics of C02/C03 "
+                                         f"gives {ref[r][i] if i < len(ref[r]) else 'no further step'} (item {i})",
+                                 "case": {"scenario": name, "against": "reference"}})
         for cfg, order, yld in variations(name, tier):
             cases += 1
             if sum(len(t) for t in base.values()) > len(sims):
@@ -226,7 +325,8 @@ def bounded_config_independence(tier, seed):
                       "pair, explicit output times; x {lazy_stepping} x {cache} x {debug} x start-order "
                       "permutations x per-simulator yields to the event loop inside step() "
                       + ("(full cross product, yields in 0,1,3)" if tier == "thorough" else "(one axis at a time plus the opposite corner, yields in 0,2)")
-                      + "; transport: in-process only"),
+                      + f"; transport: in-process only; the baseline run of each of the {with_reference} ungrouped scenarios is also compared with a "
+                        "sequential reference semantics written from the statements of C02 and C03"),
             "cases": cases, "nontrivial": nontrivial, "failures": failures, "samples": samples,
             "known_instances": {"finding": "F4", "count": len(known), "first": known[:2],
                                 "classifier": "difference disappears when prune_dataflow_cache is a no-op in both runs"}}
